@@ -204,6 +204,15 @@ def run_generator(case):
         return fail("eager-vs-jit-generator-state-differs", {"kind": cfg["kind"]}, labels=labels)
     if not _cmp(s0, snapshot(g)):
         return fail("get_batch-modified-the-generator", {"kind": cfg["kind"], "after": "jit"}, labels=labels)
+    # the factor methods of the collocation generators are pure as well
+    for meth in ("inside_batch", "border_batch", "temporal_batch", "param_batch", "obs_batch"):
+        if hasattr(g, meth):
+            r1 = getattr(g, meth)()
+            if not _cmp(s0, snapshot(g)):
+                return fail("get_batch-modified-the-generator", {"kind": cfg["kind"], "method": meth}, labels=labels)
+            r2 = getattr(g, meth)()
+            if not _cmp(snapshot(r1), snapshot(r2)):
+                return fail("repeated-get_batch-differs", {"kind": cfg["kind"], "method": meth}, labels=labels)
     # does the checked call cross a reshuffle?  (key or store order changed)
     crossed = not _cmp(snapshot(_stores(g)), snapshot(_stores(g1)))
     return ok(nontrivial=crossed, labels=labels + (["reshuffle"] if crossed else ["no-reshuffle"]))
